@@ -975,8 +975,47 @@ fn sugar_operands<W: Write>(o: &mut Out<W>) {
     }
 }
 
+/// C10, images written with several placeholders: the index is the position of the FIRST one, every other
+/// component — later placeholders included — keeps its place; both pipelines, three formats
+fn image_multi_placeholder<W: Write>(o: &mut Out<W>) {
+    let w = |s: &str| Term::new_word(s);
+    let ph = || Term::Placeholder;
+    // (components as written, expected index, expected stored components)
+    let shapes: Vec<(Vec<Option<&str>>, usize, Vec<Term>)> = vec![
+        (vec![Some("a"), None, Some("b"), None], 1, vec![w("a"), w("b"), ph()]),
+        (vec![None, None, Some("a")], 0, vec![ph(), w("a")]),
+        (vec![None, Some("a"), None, Some("b")], 0, vec![w("a"), ph(), w("b")]),
+        (vec![Some("r"), Some("a"), None, None, None], 2, vec![w("r"), w("a"), ph(), ph()]),
+    ];
+    for f in FORMATS {
+        let ff = efmt(f).unwrap();
+        let c = &ff.compound;
+        for ext in [true, false] {
+            let conn = if ext { c.connecter_image_extension } else { c.connecter_image_intension };
+            for (written, idx, stored) in &shapes {
+                let body: Vec<String> = written.iter().map(|x| match x { Some(n) => n.to_string(), None => ff.atom.prefix_placeholder.to_string() }).collect();
+                let sp = ff.space.format_terms;
+                let text = format!("{}{conn}{}{sp}{}{}", c.brackets.0, c.separator, body.join(&format!("{}{sp}", c.separator)), c.brackets.1);
+                let want = if ext { Term::ImageExtension(*idx, stored.clone()) } else { Term::ImageIntension(*idx, stored.clone()) };
+                let canon = format!("ok {}", ser::narsese(&Narsese::Term(want), Mode::Canon));
+                let hs = ser::hs(&text);
+                let e = o.run("eparse", f, &hs);
+                let l = o.run("lfold", f, &hs);
+                o.checked("C10");
+                if e != canon {
+                    o.fail("C10", f, "image with several placeholders: the enum parser does not build (first placeholder = index, the rest kept in place)", &format!("text={hs} got={e} want={canon}"));
+                }
+                if l != canon {
+                    o.fail("C10", f, "image with several placeholders: lexical parse + fold does not build (first placeholder = index, the rest kept in place)", &format!("text={hs} got={l} want={canon}"));
+                }
+            }
+        }
+    }
+}
+
 fn surface<W: Write>(r: &mut Rng, cfg: &TermCfg, n: usize, o: &mut Out<W>) {
     sugar_operands(o);
+    image_multi_placeholder(o);
     for _ in 0..n {
         let v = gen::narsese(r, cfg);
         term_hist(o, v.get_term());
@@ -1006,6 +1045,17 @@ fn surface<W: Write>(r: &mut Rng, cfg: &TermCfg, n: usize, o: &mut Out<W>) {
                 let hs = ser::hs(text);
                 let e = o.run("eparse", f, &hs);
                 let l = o.run("lfold", f, &hs);
+                // the lexical TERM entry point (`parse_term`) reads every spelling of a term as the whole-value entry
+                // point does (C09: spacing is irrelevant to it as well)
+                if let Narsese::Term(_) = &v {
+                    let lt = o.run("lparseterm", f, &hs);
+                    let lp = o.run("lparse", f, &hs);
+                    o.checked("C09");
+                    let want = lp.strip_prefix("ok ( LNTerm ").and_then(|x| x.strip_suffix(" )")).map(|x| format!("ok {x}"));
+                    if want.as_deref() != Some(lt.as_str()) {
+                        o.fail("C09", f, &format!("lexical parse_term does not read the term as lexical parse does ({what} spelling)"), &format!("text={hs} parse_term={lt} parse={lp}"));
+                    }
+                }
                 o.checked("C03");
                 if e != l || !e.starts_with("ok ") {
                     o.fail("C03", f, "enum parse != fold(lexical parse)", &format!("variant={what} text={hs} enum={e} lexfold={l}"));
@@ -1039,14 +1089,45 @@ fn surface<W: Write>(r: &mut Rng, cfg: &TermCfg, n: usize, o: &mut Out<W>) {
 }
 
 /// C04 / C05 / C12: adversarial strings through every entry point
+/// compounds made of placeholders only / with several placeholders, for every connecter of the format (both the
+/// keyword and the bracket layout come from the format tables): inputs the parsers accept or reject on their own terms,
+/// never produced by mutating formatter output
+fn placeholder_edge_texts(ff: &EF<&str>) -> Vec<String> {
+    let c = &ff.compound;
+    let ph = ff.atom.prefix_placeholder;
+    let a = "a";
+    let mut out = vec![];
+    let conns = [c.connecter_intersection_extension, c.connecter_intersection_intension, c.connecter_difference_extension,
+        c.connecter_difference_intension, c.connecter_product, c.connecter_image_extension, c.connecter_image_intension,
+        c.connecter_conjunction, c.connecter_disjunction, c.connecter_negation, c.connecter_conjunction_sequential,
+        c.connecter_conjunction_parallel];
+    let sp = ff.space.format_terms;
+    for conn in conns {
+        for comps in [vec![ph], vec![ph, ph], vec![a, ph], vec![ph, a], vec![a, ph, a, ph], vec![ph, ph, a], vec![a, ph, ph]] {
+            let body = comps.join(&format!("{}{sp}", c.separator));
+            out.push(format!("{}{conn}{}{sp}{body}{}", c.brackets.0, c.separator, c.brackets.1));
+        }
+    }
+    for br in [c.brackets_set_extension, c.brackets_set_intension] {
+        out.push(format!("{}{ph}{}", br.0, br.1));
+        out.push(format!("{}{ph}{}{sp}{ph}{}", br.0, c.separator, br.1));
+    }
+    out
+}
+
 fn malformed<W: Write>(r: &mut Rng, cfg: &TermCfg, n: usize, o: &mut Out<W>) {
     for f in FORMATS {
         let ff = efmt(f).unwrap();
         let kws = gen::keywords(ff);
-        for _ in 0..n {
-            let v = gen::narsese(r, cfg);
-            let base = ff.format_narsese(&v);
-            let s = gen::malformed(r, &kws, &base);
+        let edge = placeholder_edge_texts(ff);
+        for i in 0..(n + edge.len()) {
+            let s = if i < edge.len() {
+                edge[i].clone()
+            } else {
+                let v = gen::narsese(r, cfg);
+                let base = ff.format_narsese(&v);
+                gen::malformed(r, &kws, &base)
+            };
             let hs = ser::hs(&s);
             let outs: Vec<(&str, String)> = ["eparse", "echars", "etruth", "ebudget", "estamp", "epunct", "lparse", "lparseterm", "lfold"]
                 .iter()
@@ -1502,6 +1583,25 @@ fn api<W: Write>(r: &mut Rng, cfg: &TermCfg, n: usize, o: &mut Out<W>) {
         } else if with_ph != without {
             o.fail("C14", "-", "non-image: the two accessors differ", &raw);
         }
+        // the compound accessor is the placeholder-free accessor, for compounds only
+        match (t.is_compound(), t.get_compound_components()) {
+            (true, Some(cc)) => {
+                if cc != t.get_components() {
+                    o.fail("C14", "-", "get_compound_components differs from the placeholder-free accessor", &raw);
+                }
+            }
+            (false, None) => {}
+            _ => o.fail("C14", "-", "get_compound_components is Some exactly for compounds", &raw),
+        }
+        // the name accessor answers for every term: the name of an atom, nothing (and no panic) otherwise
+        match catch_unwind(AssertUnwindSafe(|| t.get_atom_name())) {
+            Ok(name) => {
+                if name.is_some() != t.is_atom() {
+                    o.fail("C17", "-", "get_atom_name is Some exactly for atoms", &raw);
+                }
+            }
+            Err(_) => o.fail("C17", "-", "get_atom_name panicked", &raw),
+        }
         let cats = [t.is_atom(), t.is_compound(), t.is_statement()].iter().filter(|x| **x).count();
         if cats != 1 {
             o.fail("C14", "-", "category predicates do not partition", &raw);
@@ -1591,8 +1691,16 @@ fn mutators<W: Write>(r: &mut Rng, cfg: &TermCfg, n: usize, o: &mut Out<W>) {
                 && ds.parse::<u128>().map(|v| v <= usize::MAX as u128).unwrap_or(false)
         };
         let detail = format!("term={raw} name={} out={out}", ser::hs(&arg));
+        // observing the term afterwards must always be possible: the name accessor answers for every term
+        let name_after = match catch_unwind(AssertUnwindSafe(|| t2.get_atom_name())) {
+            Ok(n) => n,
+            Err(_) => {
+                o.fail("C17", "-", "get_atom_name panicked on the term after set_atom_name", &detail);
+                continue;
+            }
+        };
         if named {
-            if !ok || t2.get_atom_name().as_deref() != Some(arg.as_str()) {
+            if !ok || name_after.as_deref() != Some(arg.as_str()) {
                 o.fail("C17", "-", "renaming a named atom failed or is not reported back verbatim", &detail);
             }
         } else if let Term::Interval(old) = &t {
